@@ -2,6 +2,22 @@
 the evidence texts (rule, assumptions)."""
 
 PLAN = {
+    "C11": {
+        "quick": [
+            {"kind": "enum", "test": "TestEnumC11Runes", "env": {"VERIF_RUNE_STEP": 1}, "timeout": 600},
+            {"kind": "rapid", "test": "TestC11Edge", "checks": 40000},
+            {"kind": "rapid", "test": "TestC11Join", "checks": 20000},
+            {"kind": "rapid", "test": "TestC11Fmt", "checks": 40000},
+            {"kind": "rapid", "test": "TestC11Panic", "checks": 40000},
+        ],
+        "thorough": [
+            {"kind": "enum", "test": "TestEnumC11Runes", "env": {"VERIF_RUNE_STEP": 1}, "timeout": 600},
+            {"kind": "rapid", "test": "TestC11Edge", "checks": 200000, "shards": 16},
+            {"kind": "rapid", "test": "TestC11Join", "checks": 60000, "shards": 16},
+            {"kind": "rapid", "test": "TestC11Fmt", "checks": 250000, "shards": 16},
+            {"kind": "rapid", "test": "TestC11Panic", "checks": 200000, "shards": 16},
+        ],
+    },
     "C14": {
         "quick": [
             {"kind": "enum", "test": "TestEnumC14", "timeout": 900},
@@ -97,6 +113,7 @@ PLAN = {
 }
 
 RULES = {
+    "C11": "enumeration: all 2048 surrogates plus negative / out-of-range / boundary runes x every rune-taking method x 5 buffer-state classes (empty, open envelope, after safe text, after pre-redactable text, pending partial UTF-8) x 4 implementations; rapid: (a) histories prefix + one edge call (any int32 rune, any byte 0..255, arbitrary byte strings) + suffix on StringBuilder, ManualBuffer, Sprintfn and SafeFormat printers: no panic, line-safe, text before and after intact; (b) JoinTo with non-slice operands of 25 kinds (int, nil, string, array, map, pointer, chan, func, struct, typed nils, wrappers): no panic, output = printing the value as-is; (c) print cases over all routes / full universe / chaotic formats / configurations: a panic may escape only if a panic is raised while printing a panic payload; (d) a method panicking (String, Error, GoString, SafeMessage, Format, SafeFormat, error hook; after 0-4 ops of partial output; payload string/error/SafeString/int/nested panicker; top level, under Unsafe(), inside a slice) between generated text: the output must equal text-before + partial output + %!verb(PANIC=<method> method: <payload>) + text-after. Non-trivial = an edge value, a non-slice operand, a chaotic format, nil operand or a panicking method is involved. Distinct = distinct specs (64-bit fingerprint).",
     "C14": "enumeration: the complete product 32 flag subsets x 8 widths {absent,1,7,12,1000,*=-7,*=0,*=5} x 7 precisions {absent,'.',0,1,5,*=0,*=3} x 56 verbs (all ASCII letters, e-acute, cross, start marker, invalid byte) x 13 operand kinds (1.4M evaluations), each under fmt's State and under redact's printer; rapid: directives outside the grid (widths 1..300, star values -40..40, precisions 0..40). Non-trivial = any directive other than bare %v. Distinct = distinct (directive, star values, operand kind).",
     "C02": "rapid: a shape (route x format x operand tree x registered types x optional error hook) with two instantiations A, B of its unsafe leaves, B derived from A by construction: every non-LF rune of an unsafe string is replaced by a freshly drawn one (markers, multi-byte runes included), run lengths may change when the consuming directive has no width/precision; byte slices and StringBuilder payloads keep their encoded length; bools, floats, complex always redrawn; integers redrawn in structured formats (zero-ness kept: it is 'emptiness' under a zero precision; shared under %c, which can print a line feed) and shared in chaotic formats (any may feed a '*'); map keys keep their relative order; public parts (literals, safe types, Safe()-wrapped, registered, star operands) are shared and free of pointers. Oracle: Redact(A) == Redact(B) byte for byte, both panic or neither, and a private-use rune tagged onto A's unsafe leaves never survives redaction. Non-trivial = the two unredacted outputs differ and the case is not bare top-level %v of basic values. Distinct = distinct specs (64-bit fingerprint). The class histogram counts (operand kind x verb) pairs.",
     "C04": "rapid: route (Sprint, Sprintf, Fprint, Fprintf) x format (70% structured, 30% chaotic; every verb incl. invalid and non-ASCII ones, flags, width, precision, '*' with negative/zero/too large/non-int operands, argument indexes in chaotic formats, missing and extra operands) x operands from the fmt-compatible universe (basic and named kinds, containers, pointers, nil and typed nil, reflect.Value, Stringer/error/Formatter/GoStringer implementations incl. panicking, nil-receiver and scripted ones, SafeValue-marked and registered types), valid UTF-8 text with markers; excluded as the property says: %w, '0' with '-'. Oracle: strip(redact output) == fmt output with markers replaced by '?'; panics iff fmt panics. Non-trivial = anything beyond bare %v of a basic value (flag, width, precision, other verb, container, method, or an fmt diagnostic in the output). Distinct = distinct specs (64-bit fingerprint).",
@@ -123,6 +140,12 @@ HOOK_COMMITS = ["cf350cc"]
 NOT_APPLICABLE = {}
 
 CLAIMS = {
+    "C11": {
+        "text": "Every parameter of the writing API is driven over its whole type (all surrogates exhaustively, any int32 rune, any byte, arbitrary byte strings) in every buffer state and implementation; JoinTo over non-slice kinds; the full print universe with panicking user programs. Oracles: absence of panic (except the fmt-conformant propagation of a panic raised while printing a panic payload), line-safety, and a composition model that pins the exact text around a contained panic. Exploration; found and repaired F1 (invalid runes), F2 (JoinTo), F9 (nested printer).",
+        "design_ref": "DESIGN.md §4.11",
+        "note": "ManualBuffer.Grow(<0) and memory exhaustion are outside the claim (documented panics). Writing arbitrary bytes in ManualBuffer's raw mode is a caller obligation, not an accepted input. Which replacement character an invalid rune renders as is not prescribed.",
+        "technique": "rapid property-based testing + exhaustive enumeration of the rune edge set; robustness oracle plus composition model around %!verb(PANIC=...)",
+    },
     "C14": {
         "text": "The property's own finite quantifier is enumerated completely (1.4M directive x operand combinations, 13 s): a probe Formatter records the state it is called with, calls MakeFormat and prints a second probe with the returned format; the two recorded (flags, width, precision, verb) tuples must be equal and justV must be reported exactly for bare %v; Safe(x), Unsafe(x) and a forwarding formatter must print exactly like x under fmt, and the forwarding formatter like the direct call under redact. Exhaustive over the stated product (strictly stronger than sampling), plus rapid sampling outside the grid.",
         "design_ref": "DESIGN.md §4.14",
